@@ -56,7 +56,9 @@ fn locales() -> Value {
         "default": Locale::default().as_str(),
         // whether leptos_i18n was built with its `cookie` feature (this crate's feature of the same name switches it)
         "feature_cookie": cfg!(feature = "cookie"),
-        "locales": Locale::get_all().iter().map(|l| json!({"name": l.as_str(), "langid": langid_json(l.as_langid())})).collect::<Vec<_>>(),
+        "locales": Locale::get_all().iter().map(|l| json!({"name": l.as_str(), "langid": langid_json(l.as_langid()),
+            // what the closure kind "t_format" shows when the context is on this locale
+            "fmt_number": leptos_i18n::formatting::td_format_string!(*l, 1234567.5f64, formatter: number).to_string()})).collect::<Vec<_>>(),
     })
 }
 
@@ -327,6 +329,12 @@ macro_rules! mk_view {
                         let f = leptos_i18n::t_plural!(ctx, count = || 0, one => "one", _ => "other");
                         Box::new(move || f().to_string())
                     }
+                    // `t_format!` view accessor, created once: every later call formats for the locale shown *then*
+                    "t_format" => {
+                        let num = move || 1234567.5f64;
+                        let f = leptos_i18n::formatting::t_format!(ctx, num, formatter: number);
+                        Box::new(move || render(f.clone()))
+                    }
                     // a derived reactive value: must be re-evaluated after a tracked `set_locale`
                     "memo" => {
                         let m = Memo::new(move |_| t_string!(ctx, $key).to_string());
@@ -355,6 +363,10 @@ macro_rules! mk_view {
                     }
                     "t_plural" => {
                         let m = Memo::new(move |_| leptos_i18n::t_plural!(ctx, count = || 0, one => "one", _ => "other")().to_string());
+                        Box::new(move || m.get_untracked())
+                    }
+                    "t_format" => {
+                        let m = Memo::new(move |_| leptos_i18n::formatting::t_format_string!(ctx, 1234567.5f64, formatter: number).to_string());
                         Box::new(move || m.get_untracked())
                     }
                     other => panic!("unknown memo kind {other}"),
@@ -753,11 +765,16 @@ fn plural_macros(req: &Value) -> Value {
             I18nContextOptions::<Locale>::default().enable_cookie(false).ssr_lang_header_getter(lang_opts(None)),
         );
         ctx.set_locale_untracked(l);
+        // `built_under`: the accessor closures of `t_*` are created while the context shows that locale, the context is then set to
+        // `locale` and the closures are called: an accessor shows the context's locale at the time it is called
+        let built = req.get("built_under").and_then(|b| b.as_str()).map(locale_of).unwrap_or(l);
         // `t_*` (tracked) give an accessor closure, `td_*` / `tu_*` the form itself
         macro_rules! forms {
             ($mac:ident, $first:expr, $n:expr) => {{
                 let n: u64 = $n;
+                ctx.set_locale_untracked(built);
                 let f = $mac!($first, count = move || n, zero => "zero", one => "one", two => "two", few => "few", many => "many", _ => "other");
+                ctx.set_locale_untracked(l);
                 f().to_string()
             }};
         }
